@@ -20,7 +20,9 @@ if [ $clean_rc -eq 0 ] && [ $mut_rc -ne 0 ] && echo "$suite" | grep -q "baseline
 import json,sys,re
 prop,m,d,suite,det,checks=sys.argv[1:7]
 import os
-rp=f'/tmp/seed_out/{prop}/README4.txt' if os.path.exists(f'/tmp/seed_out/{prop}/README4.txt') and int(m[1:])>=6 else f'/tmp/seed_out/{prop}/README.txt'
+import glob
+cands=sorted(glob.glob(f'/tmp/seed_out/{prop}/README*.txt'), key=os.path.getmtime)
+rp=cands[-1] if cands else ''
 readme=open(rp).read() if os.path.exists(rp) else ''
 json.dump({'property':prop,'seed':m,'source':'independent sub-agent given only the property text and a scratch worktree',
  'confirmed':{'demo_exit_on_clean_tree':0,'demo_exit_with_patch':'non-zero','suite_with_patch':suite},
